@@ -262,12 +262,15 @@ class WsgiEdge(EdgeServer, WsgiServer):
 
     def _enqueue_envelope(self, env):
         results = self.handoff(env)
-        if isinstance(results[0][1], QueueError):
+        # Any envelope that was not taken into custody fails the whole message.
+        failed = [res for _, res in results
+                  if isinstance(res, (QueueError, RelayError))]
+        if failed and isinstance(failed[0], QueueError):
             default_reply = Reply('451', '4.3.0 Error queuing message')
-            reply = getattr(results[0][1], 'reply', default_reply)
+            reply = getattr(failed[0], 'reply', default_reply)
             raise _build_http_response(reply)
-        elif isinstance(results[0][1], RelayError):
-            relay_reply = results[0][1].reply
+        elif failed:
+            relay_reply = failed[0].reply
             raise _build_http_response(relay_reply)
         reply = Reply('250', '2.6.0 Message accepted for delivery')
         raise _build_http_response(reply)
